@@ -196,7 +196,47 @@ impl Ctxt for BigCtxt {
         self.0.push(3 + 16 * frame.id);
     }
     fn close(&self, frame: BigFrame) {
-        assert!(frame.pad == [7; 4]);
+        assert!(frame.pad[0] == 7 && frame.pad[1] == 7 && frame.pad[2] == 7 && frame.pad[3] == 7);
         self.0.push(4 + 16 * frame.id);
+    }
+}
+
+/// A scalar-only oracle context (no arrays: cheap for CBMC when it lives behind Box / Arc): a phase machine
+/// 0 -open-> 1 -enter-> 2 -exit-> 3 -close-> 4 that asserts the order and the identity of the frame itself.
+pub struct PhaseCtxt {
+    pub phase: Cell<u8>,
+    pub amb: [(&'static str, u64); 1],
+}
+pub struct PhaseFrame(pub u8);
+impl PhaseCtxt {
+    pub fn new(amb: u64) -> Self {
+        PhaseCtxt { phase: Cell::new(0), amb: [("amb", amb)] }
+    }
+    fn step(&self, from: u8) {
+        assert!(self.phase.get() == from);
+        self.phase.set(from + 1);
+    }
+}
+impl Ctxt for PhaseCtxt {
+    type Current = [(&'static str, u64); 1];
+    type Frame = PhaseFrame;
+    fn open_root<P: Props>(&self, _: P) -> PhaseFrame {
+        self.step(0);
+        PhaseFrame(77)
+    }
+    fn enter(&self, f: &mut PhaseFrame) {
+        assert!(f.0 == 77);
+        self.step(1);
+    }
+    fn with_current<R, F: FnOnce(&Self::Current) -> R>(&self, with: F) -> R {
+        with(&self.amb)
+    }
+    fn exit(&self, f: &mut PhaseFrame) {
+        assert!(f.0 == 77);
+        self.step(2);
+    }
+    fn close(&self, f: PhaseFrame) {
+        assert!(f.0 == 77);
+        self.step(3);
     }
 }
